@@ -44,10 +44,16 @@ type c18Case struct {
 	Setup   string // idle | write@<point> | repl@<point> | load@fetch
 	Inject  string // close | close2 | iclose | iclose2 | drop | close+drop
 	Sibling bool
+	// SharedOpts: the sibling and the database under test are created with ONE options value
+	SharedOpts bool
 }
 
 func (c c18Case) ID() string {
-	return fmt.Sprintf("%s setup=%s inject=%s sibling=%v", c.Kind, c.Setup, c.Inject, c.Sibling)
+	sh := ""
+	if c.SharedOpts {
+		sh = " (created with one options value)"
+	}
+	return fmt.Sprintf("%s setup=%s inject=%s sibling=%v%s", c.Kind, c.Setup, c.Inject, c.Sibling, sh)
 }
 
 func c18Cases(tier string) []c18Case {
@@ -64,6 +70,9 @@ func c18Cases(tier string) []c18Case {
 			for _, i := range injects {
 				for _, sib := range []bool{false, true} {
 					out = append(out, c18Case{Kind: k, Setup: s, Inject: i, Sibling: sib})
+					if sib {
+						out = append(out, c18Case{Kind: k, Setup: s, Inject: i, Sibling: true, SharedOpts: true})
+					}
 				}
 			}
 		}
@@ -104,8 +113,16 @@ func runC18Case(c c18Case) (string, []explore.Violation) {
 	}
 	var sib iface.Store
 	sibView, sibSpace := "", ""
+	var sharedOpts *orbitdb.CreateDBOptions
+	if c.SharedOpts {
+		sharedOpts = &orbitdb.CreateDBOptions{Replicate: boolp(true)}
+	}
 	if c.Sibling {
-		sib, err = P.DB.Create(bg, "sibling", "keyvalue", &orbitdb.CreateDBOptions{Replicate: boolp(true)})
+		sopts := &orbitdb.CreateDBOptions{Replicate: boolp(true)}
+		if c.SharedOpts {
+			sopts = sharedOpts
+		}
+		sib, err = P.DB.Create(bg, "sibling", "keyvalue", sopts)
 		if err != nil {
 			return "harness: " + err.Error(), nil
 		}
@@ -129,7 +146,12 @@ func runC18Case(c c18Case) (string, []explore.Violation) {
 	defer closeA()
 	ac := accesscontroller.NewEmptyManifestParams()
 	ac.SetAccess("write", []string{P.DB.Identity().ID, A.DB.Identity().ID})
-	s, err := P.DB.Create(bg, "db", c.Kind, &orbitdb.CreateDBOptions{AccessController: ac, Replicate: boolp(true)})
+	dbOpts := &orbitdb.CreateDBOptions{AccessController: ac, Replicate: boolp(true)}
+	if c.SharedOpts {
+		dbOpts = sharedOpts
+		dbOpts.AccessController = ac
+	}
+	s, err := P.DB.Create(bg, "db", c.Kind, dbOpts)
 	if err != nil {
 		return "harness: " + err.Error(), nil
 	}
@@ -344,6 +366,11 @@ func runC18Case(c c18Case) (string, []explore.Violation) {
 		_ = P.DB.Close()
 		_ = sim.Quiesce()
 	}
+	// the instance is closed now whatever the injection was: nothing it started may still be running
+	closeA()
+	if left := sim.RepoGoroutines(); len(left) > 0 {
+		bad("goroutine-leak-after-instance-close:"+leakClass(left[0]), fmt.Sprintf("after %s (setup %s) and closing the instance these go-orbit-db goroutines remain: %v", c.Inject, c.Setup, left))
+	}
 	P2, err := pPeer.Start(nil)
 	if err != nil {
 		bad("reopen-failed", err.Error())
@@ -396,7 +423,7 @@ var _ ipfslog.Entry
 func init() {
 	explore.Register(&explore.CheckDef{
 		ID: "C18", Level: "exploration",
-		Rule:   "cross product, each case on a fresh world: store type x moment {idle; in-flight write parked at each of 6 points (begin, block write, after append, head put, after persist, after view update); in-flight replication parked at each of 5 points (fetch, before slot, after dequeue, before done, before load-complete); in-flight Load parked in a fetch} x injection {store.Close, store.Close twice, orbitdb.Close, orbitdb.Close twice, store.Drop, Close then Drop, Close + reopen the same database + Close of the stale handle + orbitdb.Close} x {alone, with a sibling database on the same instance}. After the injection everything parked is released and every operation is issued once on the closed object. Oracle at quiescence (state-based, no timeouts): every call has returned, no panic, the go-orbit-db goroutines still alive are exactly those present before the store was opened (none after orbitdb.Close), reopening and loading yields all acknowledged entries, Drop removed this database's cache and left the sibling untouched. Non-trivial = cases with a goroutine parked mid-operation at the injection.",
+		Rule:   "cross product, each case on a fresh world: store type x moment {idle; in-flight write parked at each of 6 points (begin, block write, after append, head put, after persist, after view update); in-flight replication parked at each of 5 points (fetch, before slot, after dequeue, before done, before load-complete); in-flight Load parked in a fetch} x injection {store.Close, store.Close twice, orbitdb.Close, orbitdb.Close twice, store.Drop, Close then Drop, Close + reopen the same database + Close of the stale handle + orbitdb.Close} x {alone, with a sibling database on the same instance, with a sibling created through the same options value}. After the injection everything parked is released and every operation is issued once on the closed object. Oracle at quiescence (state-based, no timeouts): every call has returned, no panic, the go-orbit-db goroutines still alive are exactly those present before the store was opened (none after orbitdb.Close), after the instance is closed at the end none at all; reopening and loading yields all acknowledged entries, Drop removed this database's cache and left the sibling untouched. Non-trivial = cases with a goroutine parked mid-operation at the injection.",
 		Units:  func(tier string) []explore.Unit { return explore.ChunkUnits("c18-"+tier, 16) },
 		Budget: func(tier string) float64 { return 400 },
 		RunUnit: func(c *explore.Ctx) {
